@@ -173,6 +173,9 @@ def run_cases(exe, cases, d, keep=False, callback=None):
     """-> per case: findings, or (findings, callback(c, parsed runs)) when a callback is given"""
     def one(c):
         lines = R.scenario(c, d)
+        for fn, txt in (c.get("files") or {}).items():      # input files of the configuration (target distributions)
+            with open(os.path.join(d, fn), "w") as fh:
+                fh.write(txt)
         rc, out, err = run_scenario(exe, lines, cwd=d)
         c["_nsteps"] = sum(1 for l in out if l.startswith("STEP"))
         F = judge(c, d, out, rc, err)
